@@ -17,7 +17,10 @@ ENGINE_TEXT = ("TLA+/TLC design model (MC_Sticky) + TLC-generated Yata histories
 TRACE = ("Trace_Sticky", "Trace_Sticky.cfg")
 # ./check replay <file>: (harness binary, args builder, trace module, cfg)
 REPLAY = ("yx", lambda s, t: ["yata-run", "--in", s, "--out", t, "--seed", str(vlib.seed())], TRACE[0], TRACE[1])
-DESIGN = {"quick": [("MC_Sticky", "D_sticky.cfg")], "thorough": [("MC_Sticky", "D_sticky.cfg"), ("MC_Sticky", "D_sticky_nest.cfg")]}
+# MC_StickyWide: texts with surrogate pairs (two elements per character), anchors on either element of a pair
+DESIGN = {"quick": [("MC_Sticky", "D_sticky.cfg"), ("MC_StickyWide", "D_sticky_wide2.cfg")],
+          "thorough": [("MC_Sticky", "D_sticky.cfg"), ("MC_Sticky", "D_sticky_nest.cfg"), ("MC_StickyWide", "D_sticky_wide2.cfg"),
+                       ("MC_StickyWide", "D_sticky_wide3.cfg")]}
 # generator groups of MC_Yata whose histories are extended
 # (group, n: the flat text history idx is also replayed on the root array "a" when idx % n == 0 and on the XML fragment "x"
 #  (child list of elements / XML texts) when idx % n == 1 (0 = text only), cap on the number of histories (seeded sample))
@@ -36,8 +39,10 @@ def _acting(st):
     return None
 
 
-def _extend(s, suffix, reroot, seed):
-    """One executable C14 schedule from one Yata schedule:
+def _extend(s, suffix, reroot, seed, astral=False):
+    """One executable C14 schedule from one Yata schedule (astral: cfg `wide` -- the executor mixes characters outside the
+    BMP, i.e. surrogate pairs / 4-byte characters, into every text insertion; the widened insertion then always has 3
+    characters so that a block holds both widths with something behind the pair):
     * at the very start each author creates indexes on the still empty root collection (gap 0, both
       associations, plus the container-scoped start / end pair);
     * after EVERY step of the author phase the acting author creates indexes at EVERY gap x both associations of
@@ -51,6 +56,8 @@ def _extend(s, suffix, reroot, seed):
     rnd = random.Random(yata_pipe._h(seed, s["bid"], suffix, "sticky"))
     s["bid"] += suffix
     s["cfg"]["ext"] = [ENGINE]
+    if astral:
+        s["cfg"]["wide"] = True
     steps = s["steps"]
     if reroot:
         for st in steps:
@@ -69,8 +76,8 @@ def _extend(s, suffix, reroot, seed):
     nested_later = max([j for j, x in enumerate(steps) if len(x.get("p", [])) > 1] + [-1])
     wide = [i for i, st in enumerate(steps[:nauth]) if st["a"] == "ins" and st.get("k", "u") == "u"
             and (len(st["p"]) > 1 or i >= nested_later)]
-    if wide and reroot != "x" and rnd.random() < 0.8:
-        steps[rnd.choice(wide)]["n"] = rnd.choice([2, 2, 3])
+    if wide and reroot != "x" and (rnd.random() < 0.8 or astral):
+        steps[rnd.choice(wide)]["n"] = 3 if astral else rnd.choice([2, 2, 3])
     out = []
     for a in authors:
         out.append({"a": "sticky", "r": a, "p": [root], "i": "all", "assoc": "both", "h": "e%d" % a})
@@ -101,7 +108,8 @@ def make_transform(array_share, cap):
         if cap and len(scheds) > cap:
             scheds = random.Random(yata_pipe._h(seed, "sticky-cap", len(scheds))).sample(scheds, cap)
         for idx, s in enumerate(scheds):
-            out.append(_extend(s, "", None, seed))
+            # every third history (both offset kinds: they alternate with idx) runs with astral characters in its texts
+            out.append(_extend(s, "", None, seed, astral=idx % 3 == 2))
             if array_share and idx % array_share == 0:
                 # the same history on the root array "a" (values instead of characters)
                 out.append(_extend(s, "-arr", "a", seed))
@@ -139,7 +147,7 @@ def _random(ix, tier, workdir):
     shutil.rmtree(wd, ignore_errors=True)
     os.makedirs(wd)
     rand = ["--seed", str(yata_pipe._h(seed, ix, ENGINE) % (1 << 31)), "--behaviours", str(150 if tier == "quick" else 400),
-            "--ops", str((12, 40, 30)[ix % 3]), "--ext", ENGINE, "--gc-off", "0", "--rich", "1" if ix % 3 == 2 else "0"]
+            "--ops", str((12, 40, 30)[ix % 3]), "--ext", ENGINE, "--gc-off", "0", "--rich", "1" if ix % 3 == 2 else "0", "--wide", "3"]
     return yata_pipe._xv(gname, None, wd, cpath, None, time.time(), rand=rand, trace=TRACE, engine=ENGINE)
 
 
@@ -168,7 +176,8 @@ def check(prop, tier):
                       "on the still empty collection and after every step of the author phase (texts, arrays, nested arrays, XML "
                       "child lists), passed through binary and JSON "
                       "serialization, and resolved with get_offset on every replica in every later state; offset kinds utf16 / "
-                      "bytes alternate (3-byte characters), one insertion per history is multi-unit; plus seeded random "
+                      "bytes alternate (3-byte characters; every third history and every third random behaviour mixes in characters "
+                      "outside the BMP = surrogate pairs / 4 bytes, gaps = character boundaries), one insertion per history is multi-unit; plus seeded random "
                       "schedules (every third run with XML trees, XML texts, embeds and formatting marks); validated by TLC against Trace_Sticky (expected index computed from the replica's element "
                       "list incl. tombstones, hook H1)")
     ev.cov["harness_build_s"] = round(bt, 1)
